@@ -3,7 +3,8 @@
 
 def setup(register, COMMON_TB):
     register(
-        "C06", coq="C06", pkg="./internal/mode/static/state/graph/", test="TestVerifC06",
+        "C06", coq="C06", pkg="./internal/mode/static/state/graph/", test="TestVerifC06", coq_extra=["k8s", "ngx", "gen", "C04", "C17", "C01"],
+        extra=[{"pkg": "./internal/mode/static/", "test": "TestVerifC06Revoke"}],
         rule="histories of ReferenceGrant store operations (upsert / update / delete) over generated worlds (one Gateway with "
              "HTTP, TLS and HTTPS listeners with certificateRefs; HTTPRoutes, GRPCRoutes, TLSRoutes with backendRefs; Services; "
              "Secrets), the real BuildGraph re-run on the same ClusterState after every operation; a systematic part "
